@@ -44,6 +44,10 @@ static FILE *g_hashf = nullptr;      // optional per-case observation hashes (cr
 inline void emit_hash(uint64_t idx, uint64_t h) { if (g_hashf) fprintf(g_hashf, "%llu %016llx\n", (unsigned long long)idx, (unsigned long long)h); }
 static const unsigned MAX_FAIL_PER_SHARD = 25;
 
+// watchdog for ONE library call inside a long case (cases that poll the deadline themselves carry a very long per-case alarm):
+// a call that does not return within the limit ends the child with SIGALRM, which the runner reports and confirms like any crash
+struct CallGuard { unsigned prev; explicit CallGuard(unsigned seconds) { prev = alarm(seconds); } ~CallGuard() { alarm(prev); } };
+
 // called by a case body (in the child) when an oracle fails; the run continues
 inline bool deadline_hit(ShardCtl &c) { if (now_s() > g_t_end) { c.cut = 1; return true; } return false; }
 
@@ -127,7 +131,7 @@ struct Runner {
             if (efd >= 0) { dup2(efd, 2); close(efd); }
             g_failfd = open((workdir + "/" + name + ".fail.confirm").c_str(), O_WRONLY|O_CREAT|O_TRUNC, 0644);
             if (shard_init) shard_init(-1);
-            scratch->cur = idx; alarm(case_alarm_s * 10);
+            scratch->cur = idx; alarm(case_alarm_s < 60 ? case_alarm_s * 4 : case_alarm_s + 180);      // replayed alone, with a longer limit than in the run
             body(idx, *scratch);
             alarm(0); _exit(0);
         }
